@@ -56,7 +56,30 @@ func runC21(c *Ctx) {
 			lookups = append(lookups, found)
 		}
 		for i, lk := range lookups {
-			nonNil := Cmp("rule!=nil", VIs(lk.Value()), token.NEQ, isNilVal)
+			// the rule found, or a variable that is nil unless it holds the rule found
+			// (var rule *R; if decl != nil { rule = decl.Rule(iface) }; if rule != nil { … })
+			lkv := lk.Value()
+			isRuleVal := func(v ssa.Value) bool {
+				if VIs(lkv)(v) {
+					return true
+				}
+				ph, ok := stripNoCell(v).(*ssa.Phi)
+				if !ok {
+					return false
+				}
+				n := 0
+				for _, e := range ph.Edges {
+					if IsNilConst(e) {
+						continue
+					}
+					if !VIs(lkv)(e) {
+						return false
+					}
+					n++
+				}
+				return n > 0
+			}
+			nonNil := Cmp("rule!=nil", isRuleVal, token.NEQ, isNilVal)
 			// order: lookup i+1 is not before lookup i
 			if i+1 < len(lookups) {
 				r := ReachQ{Fn: fn, From: LocOf(lookups[i+1]), Sink: SinkIs(lk)}.Run()
@@ -85,7 +108,7 @@ func runC21(c *Ctx) {
 						return co != nil && co.Name() == want
 					}) {
 						for _, a := range cc.Common().Args {
-							if Strip(a) == Strip(lk.Value()) {
+							if Strip(a) == Strip(lk.Value()) || isRuleVal(a) {
 								okVerdict = true
 							}
 						}
@@ -151,6 +174,7 @@ func runC21(c *Ctx) {
 			var names []string
 			var leaves []FlowPoint
 			phiLeaves(a, ci, &leaves, map[*ssa.Phi]bool{})
+			leaves = ThroughHelpers(leaves, fn.Pkg)
 			for _, lf := range leaves {
 				if _, f, ok := FieldLoad(lf.Val); ok {
 					names = append(names, f.Name())
@@ -233,6 +257,45 @@ func runC21(c *Ctx) {
 					}
 				}
 				okPair = okPair && sel
+			}
+			if !okPair {
+				// both lists handed back together by one helper call: pick(kind, rule)
+				dc, di, okd := CallResult(deny.Common().Args[1])
+				ac, ai, oka := CallResult(allow.Common().Args[1])
+				if okd && oka && dc == ac && di != ai {
+					if h := dc.Common().StaticCallee(); h != nil && h.Pkg == fn.Pkg && len(h.Blocks) > 0 {
+						ki := -1
+						for j, a := range dc.Common().Args {
+							if VParam(fn, 1)(a) {
+								ki = j
+							}
+						}
+						okPair = ki >= 0
+						nr := 0
+						for _, hr := range ReturnsOf(h) {
+							nr++
+							_, df, _ := FieldLoad(hr.Results[di])
+							_, af, _ := FieldLoad(hr.Results[ai])
+							if df == nil || af == nil || strings.TrimPrefix(df.Name(), "Deny") != strings.TrimPrefix(af.Name(), "Allow") {
+								okPair = false
+								continue
+							}
+							if ki < 0 {
+								continue
+							}
+							isAuto := Cmp("kind==\"auto-connection\"", VParam(h, ki), token.EQL, VConstStr("auto-connection"))
+							gate := isAuto
+							if !strings.HasSuffix(df.Name(), "AutoConnection") {
+								gate = Not(isAuto)
+							}
+							if CountAtomEdges(h, gate) == 0 || (ReachQ{Fn: h, CutEdge: AtomEdges(gate), Sink: SinkIs(hr)}).Run().Found {
+								okPair = false
+							}
+						}
+						okPair = okPair && nr >= 2
+						c.touch(h)
+					}
+				}
 			}
 			c.Check(okPair, r.fn+"#kind-pairing", deny.Pos(), "kind==\"auto-connection\" selects DenyAutoConnection with AllowAutoConnection, otherwise DenyConnection with AllowConnection", "the deny and allow lists are not selected together by kind == \"auto-connection\" (a connection could be judged by the deny list of one kind and the allow list of the other)")
 		}
